@@ -140,18 +140,6 @@ func forge(root *treechangeproto.RawTreeChangeWithId, key crypto.PrivKey, aclHea
 	return raw, err
 }
 
-func sameSeq(a, b []string) bool {
-	if len(a) != len(b) {
-		return false
-	}
-	for i := range a {
-		if a[i] != b[i] {
-			return false
-		}
-	}
-	return true
-}
-
 func runR(c RCase) (out vstat.Outcome, err error) {
 	if c.N < 2 || c.N > 4 {
 		return out, nil
@@ -238,7 +226,8 @@ func runR(c RCase) (out vstat.Outcome, err error) {
 		if !sameSet(now.heads, prev.heads) {
 			return nil, fmt.Errorf("%s: a refused batch changed the heads %s -> %s", what, rel.show(prev.heads), rel.show(now.heads))
 		}
-		if len(mixed) == 0 && !sameSeq(now.shown, prev.shown) {
+		// the presented sequence is unchanged up to a reduction of the view (front trim only)
+		if len(mixed) == 0 && !frontTrimOnly(prev.shown, now.shown) {
 			return nil, fmt.Errorf("%s: a refused batch changed the presented sequence\n  before: %s\n  after:  %s", what, rel.show(prev.shown), rel.show(now.shown))
 		}
 		if err := rel.sameRestricted(what, now.shown, "the same tree before", prev.shown); err != nil {
